@@ -25,7 +25,8 @@ import (
 
 var vReplicatedTables = []string{tableIndex, tableNodes, tableServices, tableChecks, tableKVs, tableTombstones, tableSessions,
 	tableSessionChecks, tableConnectCARoots, tableConnectCAConfig, tableCoordinates, tableConfigEntries, "autopilot-config",
-	tableServiceVirtualIPs, tableFreeVirtualIPs, tableKindServiceNames, tableSystemMetadata}
+	tableServiceVirtualIPs, tableFreeVirtualIPs, tableKindServiceNames, tableSystemMetadata,
+	tableACLTokens, tableACLPolicies, tableACLRoles}
 
 type vCmdResult struct {
 	ok  bool
@@ -53,6 +54,8 @@ type vLogArgs struct {
 	lockDelay  time.Duration
 	rootID     string
 	cidx       uint64
+	expiry     int64 // a token's expiration time (unix seconds)
+	flags      int   // option bits of the ACL commands
 	perm       bool // this replica iterates its maps in an arbitrary order
 }
 
@@ -165,20 +168,66 @@ func vApplyLog(s *Store, a vLogArgs) []vCmdResult {
 		}
 		rec(true, ens(5, &structs.ServiceConfigEntry{Kind: structs.ServiceDefaults, Name: "other", Protocol: "tcp"}), 0)
 		verifrt.PermuteMaps(false)
+	case 8: // ACL policy, role and token sets (written by a client or by replication), token with an expiration time, deletes
+		pol := &structs.ACLPolicy{ID: "a0000000-0000-0000-0000-0000000000a1", Name: "p-" + a.key, Rules: ""}
+		rec(true, s.ACLPolicyBatchSet(a.idx, structs.ACLPolicies{pol}), 0)
+		role := &structs.ACLRole{ID: "a0000000-0000-0000-0000-0000000000b1", Name: "r-" + a.key,
+			Policies: []structs.ACLRolePolicyLink{{ID: pol.ID}}}
+		rec(true, s.ACLRoleBatchSet(a.idx+1, structs.ACLRoles{role}, a.flags&1 != 0), 0)
+		exp := time.Unix(a.expiry, 0)
+		tok := &structs.ACLToken{AccessorID: "a0000000-0000-0000-0000-0000000000c1", SecretID: "a0000000-0000-0000-0000-0000000000c2",
+			Description: a.key, Policies: []structs.ACLTokenPolicyLink{{ID: pol.ID}}, Roles: []structs.ACLTokenRoleLink{{ID: role.ID}},
+			Local: a.flags&2 != 0}
+		if a.flags&4 != 0 {
+			tok.ExpirationTime = &exp
+		}
+		tok2 := &structs.ACLToken{AccessorID: "a0000000-0000-0000-0000-0000000000d1", SecretID: "a0000000-0000-0000-0000-0000000000d2",
+			Policies: []structs.ACLTokenPolicyLink{{ID: "a0000000-0000-0000-0000-0000000000ff"}}} // a link to a policy that does not exist
+		opts := ACLTokenSetOptions{CAS: a.flags&8 != 0, AllowMissingPolicyAndRoleIDs: a.flags&16 != 0, FromReplication: a.flags&32 != 0}
+		tok.ModifyIndex = a.cidx
+		rec(true, s.ACLTokenBatchSet(a.idx+2, structs.ACLTokens{tok, tok2}, opts), 0)
+		_, got, err := s.ACLTokenGetByAccessor(nil, tok.AccessorID, nil)
+		rec(got != nil, err, 0)
+		rec(true, s.ACLPolicyBatchDelete(a.idx+3, []string{pol.ID}), 0)
+		rec(true, s.ACLTokenBatchDelete(a.idx+4, []string{tok2.AccessorID}), 0)
 	}
 	return out
 }
 
 func VerifC01_SameLogSameState() {
 	netutil.GetAgentBindAddrFunc = netutil.GetMockGetAgentBindAddrFunc("0.0.0.0")
-	a := vLogArgs{kind: verifrt.Choice("log", 8), idx: verifrt.U64("idx"), key: vKey("key", 1), val: verifrt.U8("val"),
+	a := vLogArgs{kind: verifrt.Choice("log", 9), expiry: verifrt.I64("expiry"), idx: verifrt.U64("idx"), key: vKey("key", 1), val: verifrt.U8("val"),
 		lockDelay: time.Duration(verifrt.Choice("lockdelay", 2)) * 15 * time.Second, rootID: verifrt.StrN("root", 1), cidx: verifrt.U64("cidx")}
 	verifrt.Assume(a.idx >= 1 && a.idx < 1<<62)
+	verifrt.Assume(a.expiry > 1_000_000_000 && a.expiry < 4_000_000_000)
+	if a.kind == 8 {
+		a.flags = verifrt.Choice("acl.flags", 64)
+	}
 	// names that pass through lower-casing indexers are ASCII (the engine does not model Unicode case mapping)
 	verifrt.Assume(a.rootID[0] < 0x80 && a.key[0] < 0x80)
 	r1 := NewStateStore(nil)
 	r2 := NewStateStore(nil)
+	// native replay only: the real code reads the real clock, so an instant carried by the command (the
+	// token's expiration time) is placed relative to the real clock as the model placed it relative to its
+	// symbolic readings: before all of them, after all of them, or between the two replicas' applies
+	wait := time.Duration(0)
+	if !verifrt.Symbolic() {
+		rs := verifrt.ClockReadings()
+		if len(rs) > 0 {
+			lo, hi := rs[0], rs[len(rs)-1]
+			switch {
+			case a.expiry <= lo:
+				a.expiry = time.Now().Unix() - 3600
+			case a.expiry > hi:
+				a.expiry = time.Now().Unix() + 3600
+			default:
+				a.expiry = time.Now().Unix() + 2
+				wait = 3 * time.Second
+			}
+		}
+	}
 	res1 := vApplyLog(r1, a)
+	time.Sleep(wait)
 	a.perm = true // the other replica may iterate its maps in any order
 	res2 := vApplyLog(r2, a)
 	verifrt.Assert("C01.same-results", reflect.DeepEqual(res1, res2))
